@@ -449,7 +449,7 @@ class _DropAnn(ast.NodeTransformer):
         return node
 
     def visit_AnnAssign(self, node: ast.AnnAssign):
-        if node.value is not None and isinstance(node.target, ast.Name):
+        if node.value is not None and isinstance(node.target, (ast.Name, ast.Attribute)):
             return ast.copy_location(ast.Assign(targets=[node.target], value=node.value, lineno=node.lineno), node)
         return node
 
